@@ -1,38 +1,62 @@
 import TinsModel.Fields.Model
 import TinsModel.Fields.SimpleLemmas
 /- Decidable certificate tying the three tables together (Spec.rows hand-written, Gen.* generated from the source,
-   Custom.table hand-written models): core Lean only. -/
+   Custom.table hand-written models): core Lean only.
+
+   `Spec.rows` is walked block by block (`Gen.segments`: the contiguous class blocks of the table), so that the class
+   record and the generated per-class tables are looked up once per class and a field is looked up among the accessors
+   of its own class only (kernel evaluation of string comparisons is what the certificate costs). -/
 namespace Tins.Fields
 
 /-- the accessor model of row `r` is certified to be the lens at the specified position -/
-def rowCert (k : Cls) (r : Row) : Bool :=
-  match Gen.simple.find? (fun a => a.cls == k.name && a.fld == r.fld) with
+def rowCertIn (g : ClassGen) (k : Cls) (r : Row) : Bool :=
+  r.spec.fits k.len &&
+  match g.simple.find? (·.fld == r.fld) with
   | some a => r.scale == 1 && simpleOK k.order k.len a r.spec
   | none =>
     match Custom.lookup k.name r.fld with
     | some c => c.shift == r.spec.shift k.len && c.width == r.spec.width && c.scale == r.scale && 0 < r.scale
     | none => false
 
-/-- every row of the specification table: its class exists, the compiler's `sizeof` of the header image is the
-    specified header length, the field fits, and its accessor model is certified -/
-def allCert : Bool :=
-  rows.all (fun r => match classOf r.cls with
-    | some k => (Gen.imageLen.find? (·.1 == k.name)).map (·.2) == some k.len && r.spec.fits k.len && rowCert k r
-    | none => false)
+/-- a `small_uint<n>` parameter has exactly the specified width of its field (so: unrepresentable ⇒ rejected);
+    every row with a public setter has a parameter record -/
+def smallOKIn (g : ClassGen) (_k : Cls) (r : Row) : Bool :=
+  match argOfIn g r.fld with
+  | some a => (match a.small with | some n => n == r.spec.width && r.scale == 1 | none => true)
+  | none => r.access == .ro
 
-/-- every `small_uint<n>` parameter has exactly the specified width of its field (so: unrepresentable ⇒ rejected) -/
-def smallCert : Bool :=
-  Gen.args.all (fun a => match a.small, rowOf a.cls a.fld with
-    | some n, some r => n == r.spec.width && r.scale == 1
-    | none, some _ => true
-    | _, none => false)
-
-/-- the setter's parameter type admits a value the field cannot hold, and no `small_uint` range check guards it -/
-def truncates (a : ArgInfo) : Bool :=
-  match a.small, rowOf a.cls a.fld with
-  | none, some r => !(r.representable (2 ^ a.dom - 1))
+/-- one class block: the class exists, the compiler's `sizeof` of the header image is the specified header length,
+    every row of the block belongs to the class and satisfies `p` -/
+def blockCert (p : ClassGen → Cls → Row → Bool) (name : String) (rs : List Row) : Bool :=
+  match classOf name, genOf name with
+  | some k, some g => k.name == name && g.imageLen == k.len && rs.all (fun r => r.cls == name && p g k r)
   | _, _ => false
 
-def truncating : List (String × String) := (Gen.args.filter truncates).map (fun a => (a.cls, a.fld))
+/-- walk the table block by block; nothing may be left over -/
+def certSegs (p : ClassGen → Cls → Row → Bool) : List (String × Nat) → List Row → Bool
+  | [], rest => rest.isEmpty
+  | (n, c) :: segs, l => blockCert p n (l.take c) && certSegs p segs (l.drop c)
+
+/-- every row of the specification table: its class exists, the header image has the specified length, the field fits,
+    and its accessor model is certified -/
+def allCert : Bool := certSegs rowCertIn Gen.segments rows
+
+/-- every `small_uint<n>` parameter has exactly the specified width of its field -/
+def smallCert : Bool := certSegs smallOKIn Gen.segments rows
+
+/-- the setter's parameter type admits a value the field cannot hold, and no `small_uint` range check guards it -/
+def truncatesRow (r : Row) (a : ArgInfo) : Bool := a.small.isNone && !(r.representable (2 ^ a.dom - 1))
+
+def truncSegs : List (String × Nat) → List Row → List (String × String)
+  | [], _ => []
+  | (n, c) :: segs, l =>
+    (match genOf n with
+     | some g => (l.take c).filterMap (fun r => match argOfIn g r.fld with
+        | some a => if truncatesRow r a then some (r.cls, r.fld) else none
+        | none => none)
+     | none => []) ++ truncSegs segs (l.drop c)
+
+/-- the (class, field) pairs whose setter silently truncates -/
+def truncating : List (String × String) := truncSegs Gen.segments rows
 
 end Tins.Fields
